@@ -169,7 +169,7 @@ CLIENT_NOTE = (PROOF_NOTE + "L1 = atomic-operation model: each event (Start, dat
                "(Model/ClientL2.lean) adds three suspension points (Start's first Write, a retransmission's "
                "ClientAgent.Start and its Write) with the same schedules driven on the real client; at most once / never "
                "unstarted (l2_handler_at_most_once, run2_spec) and <= n+1 writes per Start (l2_writes_at_most_n_plus_1) are "
-               "proved for ALL L2 histories, the known findings F12/F14 are concrete L2 theorems; "
+               "proved for ALL L2 histories, the known findings F12/F14/F15 are concrete L2 theorems; "
                "the L1 theorems are the L2 theorems for connections and agents that do not block (run2_l1). Not carried: "
                "finer interleavings, the race detector's verdict, goroutine exit, the default ticker collector. ")
 META.update({
@@ -178,8 +178,9 @@ META.update({
                 "STATEMENT exactly_once_by_close (any history, a Start that returns nil, any continuation, Close: the "
                 "handler has been invoked exactly once when Close returns), resting on the invariant that the client's "
                 "table is a subset of the agent's; at most once; never if not started; any error of Start registers "
-                "nothing. False on the pinned tree (F6, K1, K1b, F13: repaired in /repo, each kept as corpus replay); the "
-                "L2 exception F12 (a response overtaking a failing first Write) is a known finding with a theorem. "
+                "nothing. False on the pinned tree (F6, K1, K1b, F13, F16: repaired in /repo, each kept as corpus replay); the "
+                "L2 exceptions F12 (a response overtaking a failing first Write) and F15 (the same, plus a second Start of the same "
+                "id, whose registration the first Start's error path deletes) are known findings with theorems and replays. "
                 "Correspondence: exhaustive + random histories, L2 schedules and Do against the real client.",
         "note": CLIENT_NOTE,
         "technique": "Lean 4 conservation invariant over all histories (L1) + history correspondence with predicates",
